@@ -1249,7 +1249,7 @@ static void validate(const FitCase& c, Model& m, const std::string& site, Ctx& c
 // process (ITIMER_VIRTUAL: independent of the load of the machine; ordinary cases need 0.01-10 s under ASan with
 // maxiter <= 100) is reported as not terminating.  The call is left by siglongjmp (single thread, no lock held by the
 // fitting code; what it allocated is leaked).
-static const int kCpuLimit = 30;
+static const int kCpuLimit = 100000; // each case runs in a forked child under RLIMIT_CPU (see the wrappers at the registrations)
 static sigjmp_buf gJmp;
 static volatile sig_atomic_t gArmed = 0;
 static void onCpuAlarm(int)
@@ -1341,7 +1341,18 @@ static void runFit(const FitCase& c, Ctx& ctx)
   ctx.label("fit:success");
   validate(c, *m, "fit", ctx, true);
 }
-VERIF_SUB(fit_vario, FitCase, genFit, runFit);
+// the key prefix names the input region, so that a crash confined to a recorded region (flag_intrinsic, MATERN in the
+// fitted list, emptied lags in the sills-only entry points) is not confused with a crash elsewhere
+static std::string regionOf(const FitCase& c, const char* base)
+{
+  std::string p = base;
+  if (c.opt.intrinsic) p += ":intrinsic";
+  for (int t : c.types) if (t == 7) { p += ":matern"; break; }
+  if (!c.empties.empty()) p += ":empties";
+  return p;
+}
+static void runFitForked(const FitCase& c, Ctx& ctx) { forkedRun(c, ctx, runFit, regionOf(c, "fit"), 30, 240); }
+VERIF_SUB(fit_vario, FitCase, genFit, runFitForked);
 
 // ------------------------------------------------------------------ fit_sills -----------
 // Goulard alone: the ranges of the model are given (those of `types`, generated), only the sills are fitted
@@ -1411,7 +1422,8 @@ static void runSills(const FitCase& c, Ctx& ctx)
   cc.opt = OptC(); // no option applies to the sills-only entry points
   validate(cc, *m, api == 0 ? "sills-old" : "sills-new", ctx, true);
 }
-VERIF_SUB(fit_sills, FitCase, genSills, runSills);
+static void runSillsForked(const FitCase& c, Ctx& ctx) { forkedRun(c, ctx, runSills, regionOf(c, "sills"), 30, 240); }
+VERIF_SUB(fit_sills, FitCase, genSills, runSillsForked);
 
 // ------------------------------------------------------------------ fit_vmap ------------
 struct VMapCase
@@ -1547,6 +1559,7 @@ static void runVMap(const VMapCase& c, Ctx& ctx)
   f.opt.keep_intstr = c.opt.keep_intstr;
   validate(f, *m, "vmap", ctx, true);
 }
-VERIF_SUB(fit_vmap, VMapCase, genVMap, runVMap);
+static void runVMapForked(const VMapCase& c, Ctx& ctx) { forkedRun(c, ctx, runVMap, "vmap", 30, 240); }
+VERIF_SUB(fit_vmap, VMapCase, genVMap, runVMapForked);
 
 VERIF_MAIN()
